@@ -297,6 +297,23 @@ var c15 = newChk("C15", "builder-model",
 				return obs.Failf(fmt.Sprintf("C15/b%d/second-use", c.Builder), "the same packet when the builder is called again with the same modifier slice", "differs at byte %d", firstDiff(e2, enc))
 			}
 		}
+		// a packet that was built stays what it is while further packets are built from OTHER inputs (another client's
+		// request with another hardware address, transaction id and relay) through every builder
+		other := c.In.Lib()
+		other.ClientHWAddr = net.HardwareAddr{0xde, 0xad, 0xbe, 0xef, 0x00, 0x01}[:max(1, min(6, len(in.ClientHWAddr)))]
+		other.TransactionID[0] ^= 0xff
+		other.GatewayIPAddr = net.IP{198, 51, 100, 7}
+		other.YourIPAddr = net.IP{198, 51, 100, 8}
+		other.Options[82] = []byte{1, 3, 'x', 'y', 'z'}
+		other.Options[61] = []byte{0, 'o', 't', 'h', 'e', 'r'}
+		for _, b := range []func(*dhcpv4.DHCPv4, ...dhcpv4.Modifier) (*dhcpv4.DHCPv4, error){dhcpv4.NewReplyFromRequest, dhcpv4.NewRequestFromOffer, dhcpv4.NewRenewFromAck, dhcpv4.NewReleaseFromACK} {
+			if o, err := b(other); err == nil {
+				_ = o.ToBytes()
+			}
+		}
+		if e3 := out.ToBytes(); !bytes.Equal(e3, enc) {
+			return obs.Failf(fmt.Sprintf("C15/b%d/earlier-result-changed", c.Builder), "a built packet is unchanged by later builds from other inputs", "differs at byte %d", firstDiff(e3, enc))
+		}
 		got, why := refv4.Decode(enc)
 		if why != refv4.OK {
 			return obs.Failf("C15/unreadable", "independent decoder accepts the built packet", "%s", why)
